@@ -11,6 +11,7 @@ import (
 	"go/types"
 	"sort"
 	"strings"
+	"sync"
 
 	"golang.org/x/tools/go/ssa"
 )
@@ -37,6 +38,7 @@ type Encoder struct {
 	c             *Ctx
 	sorts         map[string]*Sort
 	deepPre       bool
+	symMu         sync.Mutex
 	tracked       []trackedObj // objects allocated by the function under verification (see restoreFrame)
 	assumptions   []*Term
 	obls          []*Obligation
